@@ -235,6 +235,14 @@ pub enum PredicateError<E> {
 #[derive(Debug, Error)]
 pub struct ProgramErrors<E>(Vec<(usize, ProgramError<E>)>);
 
+#[cfg(essential_base_verif)]
+impl<E> ProgramErrors<E> {
+    /// The indices of the nodes whose programs failed.
+    pub fn node_indices(&self) -> Vec<usize> {
+        self.0.iter().map(|(ix, _)| *ix).collect()
+    }
+}
+
 /// An error occurring during a program task.
 #[derive(Debug, Error)]
 pub enum ProgramError<E> {
